@@ -148,6 +148,15 @@ def run(tier, replay):
         # one slow-consumer case beyond the reader's 3 s truncation check period, file without final newline is C01's; here: lines
         cases.append({"id": 9999, "cmds": [[3, 2]], "steps": [{"a": "send", "k": 1}] + [{"a": "read", "k": 0}] * 3, "pace": "stall", "stallat": 2,
                       "stallms": 3600, "grep": False, "catlimit": 1, "seed": 7, "scale": 60, "lines": [[700, 650]], "shape": "CmdsOne2", "nofinalnl": True})
+        # a consumer that is slower than the readers all the way to the end: files of more than two queue lengths, with and
+        # without final newline, read at 0.4 ms per message
+        for k, (nl, grep) in enumerate([(True, False), (False, False), (True, True)]):
+            cases.append({"id": 9990 + k, "cmds": [[3, 2]], "steps": [{"a": "send", "k": 1}] + [{"a": "read", "k": 0}] * 2, "pace": "fast", "stallat": 0,
+                          "stallms": 0, "grep": grep, "catlimit": 2, "seed": 11 + k, "scale": 100, "lines": [[460, 333]], "shape": "CmdsOne2",
+                          "nofinalnl": nl, "drainus": 400})
+        for c in cases:
+            if "drainus" not in c:
+                c["drainus"] = rng.choice([0, 0, 0, 150]) if sum(sum(x) for x in c["lines"]) > 150 else 0
         for i, c in enumerate(cases):
             c["id"] = i + 1
         cj, oj = os.path.join(wd, "cases.json"), os.path.join(wd, "out.json")
